@@ -203,6 +203,7 @@ func runLBAff(x *X) {
 	}
 	var lastID identity
 	haveLast := false
+	lastRemoved := ""
 	traffic := func(concurrent bool) {
 		k := 8 + c.Intn(40, "ntraffic")
 		if concurrent {
@@ -294,6 +295,22 @@ func runLBAff(x *X) {
 				}
 			}
 			bc := addCfg()
+			// a backend that was taken out (maintenance) often comes back under its old name, at a new
+			// address or the old one: for the pool it is an append like any other
+			if lastRemoved != "" && c.Intn(2, "re-add-removed-name") == 0 {
+				present := false
+				for _, n := range names {
+					if n == lastRemoved {
+						present = true
+					}
+				}
+				if !present {
+					host := x.BackendHost(3, hostN)
+					net.add(lastRemoved, host, "")
+					bc.Name, bc.Address = lastRemoved, "http://"+host
+					x.Probe("removed-name-re-added")
+				}
+			}
 			x.Do("add", func() {
 				if err := h.lb.AddBackend(bc); err != nil {
 					panic(err)
@@ -323,6 +340,7 @@ func runLBAff(x *X) {
 			k := c.Intn(len(names), "rm")
 			nm := names[k]
 			x.Do("remove", func() { h.lb.RemoveBackend(nm) }, onErr)
+			lastRemoved = nm
 			names = append(names[:k], names[k+1:]...)
 			delete(ejectedUntil, nm)
 			newEpoch("remove " + nm)
